@@ -1,6 +1,6 @@
 #!/bin/bash
 # usage: tools/seeded_matrix.sh [quick|thorough]
-# Applies every patch under seeded/, seeded_informed/, seeded_wave3/ and seeded_wave4/ in turn to the repository
+# Applies every patch under seeded/, seeded_informed/, seeded_wave3/, seeded_wave4/, seeded_informed2..5/ and seeded_wave9/ in turn to the repository
 # (/repo, or the scratch copy $VP_RUN_REPO when started through `vp run --with-repo`), runs the check of the
 # property the change was aimed at, restores the repository, and prints one line per change.
 TIER=${1:-quick}
@@ -15,7 +15,7 @@ fi
 if ! git -C "$REPO" diff --quiet; then echo "$REPO has uncommitted changes; refusing" >&2; exit 2; fi
 restore() { git -C "$REPO" checkout -- . ; }
 trap restore EXIT
-for d in seeded/* seeded_informed/* seeded_wave3/* seeded_wave4/* seeded_informed2/* seeded_informed3/* seeded_informed4/* seeded_informed5/*; do
+for d in seeded/* seeded_informed/* seeded_wave3/* seeded_wave4/* seeded_informed2/* seeded_informed3/* seeded_informed4/* seeded_informed5/* seeded_wave9/*; do
   [ -f "$d/patch.diff" ] || continue
   name=$(basename "$d"); id=$(echo "$name" | grep -oE "C[0-9]{2}" | head -1)
   git -C "$REPO" apply "$ROOT/$d/patch.diff" || { echo "$name: PATCH-DOES-NOT-APPLY"; continue; }
